@@ -90,6 +90,10 @@ type Handler struct {
 	// Since it's not valid utf-8 we can't use any other string function though
 	Records   map[string][]lease
 	allocator allocators.Allocator
+	// exchange serialises whole messages. The Mutex above is released between the IA_PD
+	// options of one message; without this, two datagrams of one client interleave at IA_PD
+	// granularity and get answers that no one-at-a-time order would give
+	exchange sync.Mutex
 }
 
 // samePrefix returns true if both prefixes are defined and equal
@@ -120,6 +124,9 @@ func (h *Handler) Handle(req, resp dhcpv6.DHCPv6) (dhcpv6.DHCPv6, bool) {
 		log.Error("Invalid packet received, no clientID")
 		return nil, true
 	}
+
+	h.exchange.Lock()
+	defer h.exchange.Unlock()
 
 	// Each request IA_PD requires an IA_PD response
 	for _, iapd := range msg.Options.IAPD() {
